@@ -16,6 +16,7 @@ EXPLANATION = (
     "sets."
     "Also decided: the pool's set discipline (idle first, chosen worker counted busy, new worker started, finished worker leaves busy and is idle-or-retired under the minimum test), the worker waits for and clears its event each round, nothing fallible runs in denyConnection outside its try/finally and nothing escapes it, the refusal is encodable and its header names its encoding. "
     'Also decided (round 7): A worker is handed back to the pool only by a thread that stays alive; the event is cleared before the slot is read and not again before the next wait. '
+    'Also decided (round 9): In _handshake the refusal (denied_reason) is decided before the payload is decoded and before the validator runs. '
     "Not decided: races inside the interpreter's set operations, liveness of close, timing."
 )
 
